@@ -16,7 +16,7 @@ VIOLATIONS = "violations_C17"
 KNOWN = "known_C17"
 SHARD = 40
 RULE = ("histories over real workspaces: a universe (homogeneous / heterogeneous / nested / textually colliding / "
-        "awkward strings: spaces, dots, unicode, empty, '.', '..', the leaf name 'job', separators) of 0..7 initial jobs, "
+        "awkward strings: spaces, dots, unicode, empty, '.', '..', the leaf name 'job', separators, also inside list elements) of 0..7 initial jobs, "
         "key names that are string prefixes of one another with custom specs naming one key next to {{auto}}, values that vanish under normpath ('.', '') with two-key format paths, then 1..4 create_linked_view calls (job_ids None / subsets incl. empty / path None, False, format strings with "
         "{{auto}}, invalid specs / absolute or cwd-relative prefix / two alternating prefixes) interleaved with add, remove "
         "and re-key of jobs and with moving the view directory to another depth (stale but well-named links).  Every create_linked_view call is one case: world snapshot before, the call, snapshot after, "
@@ -50,6 +50,7 @@ STR_PLAIN = ["x", "y", "abc", "B"]
 STR_AWK = ["x y", " lead", "1.5", "a.b", "é", "中文", "\U0001F600", "a b.c", "", "1", "True", "None"]
 ROOTMARK = "@ROOT@"   # replaced by the case directory at run time: absolute values stay inside the scratch area
 STR_EVIL = [".", "..", JOB, "a/b", ROOTMARK + "/a/esc", "job/x", "x/"]
+LIST_SEP = [["x/y"], [1, "a/b"], [["x/y"], 1], ["x", ["y", ["z/"]]], ["/"]]
 KEYS = ["a", "b", "c", "k k", "é", "B"]
 
 
@@ -67,6 +68,8 @@ def rand_scalar(rng, evil):
         return rng.choice([1.0, 0.5, 1e-3, 2.5])
     if r < 0.92:
         return rng.choice([True, False, None])
+    if rng.random() < 0.25 + 2 * evil:
+        return rng.choice(LIST_SEP)          # a separator inside a list element (f6f949e)
     return [rng.choice([1, 2, "x"]) for _ in range(rng.randint(0, 2))]
 
 
@@ -261,6 +264,9 @@ def fixed_histories():
       [V, {"op": "remove", "i": 2}, V, {"op": "remove", "i": 0}, V])
     h("fix-nested", [{"a": {"b": "x.y"}, "c": 1}, {"a": {"b": "z"}, "c": 2}], [V, dict(V, path=False), V])
     h("fix-sep", [{"a": 1}, {"a": 2}], [V, {"op": "add", "sp": typed({"a": "x/y"})}, V])
+    h("fix-list-sep", [{"a": ["z"]}, {"a": [1, "x"]}], [V, {"op": "add", "sp": typed({"a": ["x/y"]})}, V,
+                                                       {"op": "remove", "i": 2}, {"op": "add", "sp": typed({"a": [["p/q"], 1]})}, V])
+    h("fix-list-sep-nested", [{"a": {"b": [1, "a/b"]}, "c": 1}, {"a": {"b": [2]}, "c": 2}], [V, dict(V, path="c/{c}")])
     h("fix-hetero", [{"a": 1}, {"a": 2}], [V, {"op": "add", "sp": typed({"a": 1, "b": 2})}, V])
     h("fix-dup", [{"a": 1}, {"a": "1"}], [V])
     h("fix-leafnode", [{"a": 1}, {"a": 1, JOB: 5}, {"a": 2, JOB: 6}], [V])
@@ -714,10 +720,10 @@ def one_view(signac, _make_path_function, root, pdir, live, step, desc, si):
             return {ab(k): absp(x) for k, x in v.items()}
         return v
 
-    # j_pf / c_pfmake are placeholders: CorrC17.fill_call overwrites them with the paths computed in Coq
+    # j_items / j_pf / c_pfmake are placeholders: CorrC17.fill_call computes the guard items and the paths in Coq
+    # from the state points
     jobs_coq = coq_list([
-        "{| j_dir := %s; j_items := %s; j_pf := (Err EOther) |}" % (
-            coq_path(rp(j["dir"])), coq_list([coq_str(ab(x)) for x in j["items"]], "str"))
+        "{| j_dir := %s; j_items := (@nil str); j_pf := (Err EOther) |}" % coq_path(rp(j["dir"]))
         for j in jrecs], "View.job")
     call_coq = "{| c_cwd := %s; c_prefix := %s; c_jobs := %s; c_pfmake := None; c_all := %s |}" % (
         coq_path(rp(cwd)), coq_path(raw(prefix)), jobs_coq,
